@@ -462,7 +462,7 @@ func main() {
 		lib.ReadReplayCase(a.Replay, &c)
 		cases = []Case{c}
 	} else {
-		cases = gen(rng, a.Tier, a.Pick(12, 60))
+		cases = gen(rng, a.Tier, a.Pick(50, 200))
 	}
 	r := startRig()
 	watchdog := time.AfterFunc(20*time.Minute, func() {
